@@ -290,6 +290,15 @@ class Hist:
             except Exception:
                 self.ctx.count("group_constructor_raised"); return
             gs = [g, g[[7]], g.restrict(iset(*self.lit(), sc))]
+            # merging groups that live on different supports (restricted to different epochs) with a fresh union support
+            try:
+                ga, gb = g.restrict(iset(*self.lit(), sc)), g.restrict(iset(*self.lit(), sc))
+                if len(ga.time_support) and len(gb.time_support):
+                    gs.append(ga.merge(gb, reset_index=True, reset_time_support=True))
+                    gs.append(gs[-1].get(0.0, 30 * sc / 1e9))
+                    gs.append(nap.TsGroup.merge_group(ga, gb, g, reset_index=True, reset_time_support=True, ignore_metadata=True))
+            except (RuntimeError, ValueError):
+                self.ctx.count("group_merge_raised")
             for gg in gs:
                 sup = iset_ns(gg.time_support)
                 if not is_canonical_ns(*sup):
